@@ -147,6 +147,9 @@ pub enum RequestCreationError {
 
     /// Error while reading data from the socket during the creation of the `Request`.
     CreationIoError(IoError),
+
+    /// The `Content-Length` header is not a plain decimal number that fits in `usize`.
+    InvalidContentLength,
 }
 
 impl From<IoError> for RequestCreationError {
@@ -185,16 +188,28 @@ where
         .find(|h: &&Header| h.field.equiv("Transfer-Encoding"))
         .map(|h| h.value.clone());
 
-    // finding the content-length header
+    // finding the content-length header; anything but 1*DIGIT that we can represent is a
+    // framing error, not "no body" (other parsers may read such a value differently)
+    let declared_length: Option<usize> = match headers
+        .iter()
+        .find(|h: &&Header| h.field.equiv("Content-Length"))
+    {
+        Some(h) => {
+            let value = h.value.as_str();
+            if value.is_empty() || !value.bytes().all(|b| b.is_ascii_digit()) {
+                return Err(RequestCreationError::InvalidContentLength);
+            }
+            Some(FromStr::from_str(value).map_err(|_| RequestCreationError::InvalidContentLength)?)
+        }
+        None => None,
+    };
+
     let content_length = if transfer_encoding.is_some() {
         // if transfer-encoding is specified, the Content-Length
         // header must be ignored (RFC2616 #4.4)
         None
     } else {
-        headers
-            .iter()
-            .find(|h: &&Header| h.field.equiv("Content-Length"))
-            .and_then(|h| FromStr::from_str(h.value.as_str()).ok())
+        declared_length
     };
 
     // true if the client sent a `Expect: 100-continue` header
